@@ -23,7 +23,6 @@ if tier != "quick":
            H("verifC15Flip9d2", base + acc + "n=9, one payload bit at a symbolic position, pseudo-random Delta"),
            H("verifC15ChkHi9d2", base + acc + "n=9, one check-batch bit flipped at a symbolic (column, row in 240..255), pseudo-random Delta"),
            H("verifC15Chk9d2", base + acc + "n=9, one check-batch bit flipped at a symbolic (column, row in 0..15), pseudo-random Delta"),
-           H("verifC15Two9d2", base + acc + "n=9, two payload bits flipped, pseudo-random Delta"),
            H("verifC15Cross9d2", base + acc + "n=9, one payload bit and one check-batch bit flipped in the same symbolic column, pseudo-random Delta"),
            H("verifC15Row9d1", base + acc + "n=9, an arbitrary non-zero mask xored into ONE ROW of the payload u-matrix (any set of columns), sparse Delta"),
            H("verifC15Honest17", base + "n=17 (three payload byte-rows), no tampering"),
